@@ -621,7 +621,7 @@ class TConn:
 
     # client side
     def send(self, frame):
-        if self.server_closed:
+        if self.server_closed or getattr(self, 'send_fails', False):
             raise WsClosed()
         self.srv.on_frame(self, frame)
 
@@ -726,7 +726,7 @@ class AConn:
         self.upgraded = False
 
     async def asend(self, frame):
-        if self.server_closed:
+        if self.server_closed or getattr(self, 'send_fails', False):
             raise WsClosed()
         self.srv.on_frame(self, frame)
 
